@@ -46,4 +46,12 @@ NewVerifier(cfg, which) ==
 Ops == {"LoadOCI", "LoadBlob", "NewOCI", "NewBlob"}
 Expected(cfg, op) == CASE op = "LoadOCI" -> Load(cfg, "oci") [] op = "LoadBlob" -> Load(cfg, "blob")
                        [] op = "NewOCI" -> NewVerifier(cfg, "oci") [] OTHER -> NewVerifier(cfg, "blob")
+
+(* The verifier that came out is USED: the document of every file lists a trust store of its own (ca:from-<file>) in the trust
+   store directory of the same configuration root, and exactly one of these stores - rootIn - holds the signer's root.  A good
+   signature verifies iff the verifier was built from the file whose store that is: which file a configuration-based verifier
+   obeys is observed through what it trusts, not through a second look at the directory. *)
+Verified(cfg, op, rootIn) ==
+  LET e == Expected(cfg, op) IN
+  IF e.res # "verifier" THEN "n/a" ELSE IF e.from = rootIn THEN "pass" ELSE "fail"
 =============================================================================
